@@ -207,7 +207,11 @@ func buildShadow(o *world.Obs, ignoreLoc map[int]bool) *Shadow {
 			for _, k := range []string{"Location", "Content-Location"} {
 				for _, loc := range c.RespHdr.Values(k) {
 					if abs, ok := resolveLoc(ex.Req.URL, loc); ok {
-						if lnf, ok := model.NF(abs, false); ok {
+						// a URI of another origin is not invalidated (RFC 9111 §4.4), so the real
+						// cache keeps that entry: it stays in the shadow as well, but uncertain
+						o1, ok1 := model.Origin(ex.Req.URL)
+						o2, ok2 := model.Origin(abs)
+						if lnf, ok := model.NF(abs, false); ok && (!ok1 || !ok2 || o1 == o2) {
 							delete(sh.entries, lnf)
 						}
 						// anything not surely distinct from the location loses certainty
@@ -364,11 +368,14 @@ func (sh *Shadow) find304Target(nf string, h http.Header, c *world.Call) *Shadow
 	}
 	var hit *ShadowEntry
 	for _, e := range sh.entries[nf] {
-		if e.match(h) != "no" {
+		switch e.match(h) {
+		case "yes":
 			if hit != nil {
 				return nil
 			}
 			hit = e
+		case "maybe":
+			return nil // which entry the request selected is not certain
 		}
 	}
 	return hit
